@@ -12,6 +12,9 @@
 // zeros, underscores, white space, junk) on the text path; seeded random longer sequences.
 // Every value handed out by NameMap / ValueMap / Names / Values is edited by the runner after every reading
 // (owned.go): the table must behave as the model says for the calls alone.
+// (3) Calls AFTER resolution (post.go, path "post"): written lists placed in a leaf, typedef chains, union members,
+// groupings, deviations ..., processed, then Set/SetNext sequences on the table reached through Entry.Type.Enum / .Bit;
+// every other table reachable in the processed modules is the same object or an independent table.
 package main
 
 import (
@@ -28,7 +31,7 @@ import (
 	"verif/harness/lib"
 )
 
-// tcase: Kind "e" | "b"; Path "ops" | "text"; Vals[i] is "-" (ops: SetNext) / "nil" (text: no statement),
+// tcase: Kind "e" | "b"; Path "ops" | "text" | "post" (post.go); Vals[i] is "-" (ops: SetNext) / "nil" (text: no statement),
 // a decimal int64 (ops) or the hex of the written argument (text).
 type tcase struct {
 	Kind  string   `json:"kind"`
